@@ -67,7 +67,33 @@ func runC06(c *Ctx) {
 					}
 				}
 				pub := time.UnixMilli(int64(r.U64() >> uint(20+r.Intn(20))))
-				info, nerr := router_info.NewRouterInfo(ri, pub, addrs, genOptionsMap(r), &priv, 7)
+				riOpts := genOptionsMap(r)
+				// an options mapping in the upper half of the 16-bit size range (32 KiB and more): once on the
+				// RouterInfo, once on an address
+				bigOpts := func() map[string]string {
+					m := map[string]string{}
+					for j := 0; len(m) < 66+r.Intn(60); j++ {
+						kk := make([]byte, 250)
+						for q := range kk {
+							kk[q] = keyAlphabet[r.Intn(26)]
+						}
+						vv := make([]byte, 200+r.Intn(50))
+						for q := range vv {
+							vv[q] = keyAlphabet[r.Intn(26)]
+						}
+						m[string(kk)] = string(vv)
+					}
+					return m
+				}
+				if i == 1 {
+					riOpts = bigOpts()
+				}
+				if i == 2 {
+					if a, aerr := router_address.NewRouterAddress(3, time.Time{}, "NTCP2", bigOpts()); aerr == nil {
+						addrs = append(addrs, a)
+					}
+				}
+				info, nerr := router_info.NewRouterInfo(ri, pub, addrs, riOpts, &priv, 7)
 				if nerr == nil {
 					ok1, e1 := info.VerifySignature()
 					b, berr := info.Bytes()
